@@ -14,6 +14,12 @@ LEVEL = "other"
 def run(rep, tier, replay):
     rng = random.Random(vlib.seed())
     exe = vlib.build_impl()
+    # (M+G) spec/Parser.tla: the header/trailer parser transcribed and checked against the stream grammar; every stimulus
+    # (valid shapes, every single-bit flip outside payloads, every truncation) replayed through the real parse() under
+    # chunkings that suspend it at every word and exactly at stream ends
+    import inproc, os
+    for why, beh in inproc.parse_leg(rep, os.path.join(os.path.dirname(exe), "src"), tier):
+        rep.violation(why, dict(kind="inproc", cls="parse-replay", harness="replay_parse", stimulus=beh))
     bzgen.calibrate(rep, vlib.seed() + 1, 6 if tier == "quick" else 20)
     valid = fmtsession.spec_items("valid", 60 if tier == "quick" else 600, vlib.seed())
     defect = fmtsession.spec_items("defect", 240 if tier == "quick" else 4000, vlib.seed() + 7)
